@@ -511,9 +511,12 @@ def build_batchnorm(p, osh, aux):
     h.operand("var", pk, "f32", np.array([p["var"], p["var"]], dtype=f32), alt=np.array([1, 1], dtype=f32))
     h.node("BatchNormalization", ["t", "gamma", "beta", "mean", "var"], ["y"], epsilon=0.0)
     h.out("y", "f32", list(osh))
-    if p["shared"]:
+    if p["shared"] in (True, "w"):
         h.node("Neg", ["w"], ["y2"])
         h.out("y2", "f32", list(wv.shape))
+    elif p["shared"] == "b":
+        h.node("Neg", ["bias"], ["y2"])
+        h.out("y2", "f32", list(bv.shape))
     rule = {"Gemm": m.fuse_batchnorm_into_gemm_rule, "Conv": m.fuse_batchnorm_into_conv_rule,
             "ConvTranspose": m.fuse_batchnorm_into_conv_transpose_rule}[op]
     return h, [rule]
